@@ -24,26 +24,25 @@ import (
 )
 
 type c12RPeer struct {
-	i       int
-	addr    string
-	as      uint32
-	fams    []bgp.Family
-	cfgGR   bool // helper config: GR enabled => LocalRestarting set
-	open    c12Open
-	estOff  time.Duration // -1: never comes up
-	eorOff  map[bgp.Family]time.Duration // after establishment; -1: never
-	keys    []c12Key
-	sp      *simSpeaker
-	obs     *c12Obs
-	up      bool
-	estAt   time.Time
-	eorAt   map[bgp.Family]bool
-	annc    map[c12Key]int
-	rel     bool // observed holding routes
-	relAt   time.Time
-	nAnn    map[c12Key]int
-	dupEOR  bool
-	dupAdv  bool
+	i      int
+	addr   string
+	as     uint32
+	fams   []bgp.Family
+	cfgGR  bool // helper config: GR enabled => LocalRestarting set
+	open   c12Open
+	estOff time.Duration                // -1: never comes up
+	eorOff map[bgp.Family]time.Duration // after establishment; -1: never
+	keys   []c12Key
+	sp     *simSpeaker
+	obs    *c12Obs
+	up     bool
+	estAt  time.Time
+	eorAt  map[bgp.Family]bool
+	annc   map[c12Key]int
+	rel    bool // observed holding routes
+	relAt  time.Time
+	dupEOR bool
+	dupAdv bool
 }
 
 type c12RH struct {
